@@ -19,6 +19,7 @@ from ..astdb import AnalysisBroken, where
 from ..sym import Converter, Env, S
 from ..tables import Directions, switch_arms, arm_aborts
 from .c02 import axis_subscripts
+from . import c10_commute
 
 N = [S("N0", integer=True, positive=True), S("N1", integer=True, positive=True), S("N2", integer=True, positive=True)]
 N3 = S("N3", integer=True, positive=True)
@@ -715,3 +716,6 @@ def run(chk, prog):
     chk.ok("O", "task-graph ordering / exclusivity premises hold (%d C07 obligations G1, G2, G4, G8, W re-checked)" % no,
            "src/TaskBasedRadiationHydrodynamicsSimulation.cpp")
     chk.floor("O", no, 2000)
+    # ---- S5: the sweeps of one phase commute -------------------------------------------------------------
+    n5 = c10_commute.rule_S5(chk, prog.library())
+    chk.floor("S5", n5, 20)
